@@ -124,11 +124,16 @@ CLAIMS["C07"] = dict(
           "code k gives the two sub-problems exactly the boundary states k stands for (0 for the state, -FLT_MAX for the "
           "others) and restores the saved outer states; do_align sets seq1/seq2/prof1/prof2 to one of the three kernel "
           "shapes before every aln_runner call and mirrors the path (and swaps lengths) on exactly the swapped branches; "
-          "parallel and serial Hirschberg steps dispatch identically."),
-    note=("The optimality statement itself - recurrence weights, terminal-gap handling, tie-breaks, float rounding - is a "
-          "numerical property and is NOT decided."),
-    technique="producer/consumer exhaustiveness table, sibling cross-check of three kernels, guard/store agreement",
-    design_ref="DESIGN.md section 3, C07 (R07a-R07b)")
+          "parallel and serial Hirschberg steps dispatch identically; profile gap columns are scaled by the size of the "
+          "other group on both sides; the three forward passes, the three backward passes and the three meetup functions "
+          "implement one recurrence each: every straight-line piece leaves the same max-plus normal form (penalties "
+          "mapped to open/extension/terminal classes, scores to S) in every DP cell, carried local and candidate, under "
+          "each of the four border situations, and the border tests select interior/terminal prices with the same polarity."),
+    note=("The optimality statement itself is numerical and is NOT decided: the recurrence comparison is relative (a slip "
+          "made identically in all three kernels is invisible), and profile row/column offsets, float rounding and "
+          "tie-breaks are not examined."),
+    technique="producer/consumer exhaustiveness table, sibling cross-check of three kernels by max-plus value numbering, guard/store agreement",
+    design_ref="DESIGN.md section 3, C07 (R07a-R07f)")
 
 CLAIMS["C13"] = dict(
     text=("Decides that the kind decision is a function of the residue-letter histogram only and is biased the right way on "
